@@ -108,6 +108,32 @@ pub fn c10(ctx: &Ctx) -> PropResult {
             cases.push(run_case(format!("{}{}", exemplar_prelude(), f), "statement-form"));
         }
     }
+    // maps built from every pair of exemplar keys, then every MAP procedure on them
+    for (_, k1) in EXEMPLARS {
+        for (_, k2) in EXEMPLARS {
+            let c = run_case(format!("{pre}mp <- MAP()\nMAP_INSERT(mp, {k1}, 1)\nMAP_INSERT(mp, {k2}, [2])\nDISPLAY(\"built\")\nDISPLAY(LENGTH(MAP_KEYS(mp, 0)))\nDISPLAY(LENGTH(MAP_VALUES(mp, 0)))\nDISPLAY(MAP_CONTAINS_KEY(mp, {k1}))\nDISPLAY(MAP_GET(mp, {k2}))\nDISPLAY(MAP_INSERT(mp, {k1}, NULL))\n"), "MAP.state");
+            // lists as keys are hashed by their contents at insertion time (mutable keys): outside the map model, which
+            // covers the key kinds C16 names; they are run for the no-crash oracle only
+            let list_key = k1.starts_with('[') || k2.starts_with('[');
+            cases.push(if list_key { c.tag("impl-only") } else { c });
+        }
+    }
+    // strings whose multi-byte characters straddle every small byte offset, at every string-typed position
+    let offs = ["é", "aé", "abé", "abcé", "abcdé", "€", "a€", "ab€", "abc€", "😀", "a😀", "ab😀", "abc😀", "éé", "blé", "日本語", "ab\u{301}c"];
+    for (module, name, arity) in &reg {
+        if !C10_MODULES.contains(&module.as_str()) || name.starts_with("INPUT") || name == "TIME" || name == "SLEEP" {
+            continue;
+        }
+        for pos in 0..*arity {
+            if !plausible_arg(module, name, pos).starts_with('"') {
+                continue;
+            }
+            for o in offs {
+                let args: Vec<String> = (0..*arity).map(|i| if i == pos { format!("\"{o}\"") } else { plausible_arg(module, name, i).to_string() }).collect();
+                cases.push(run_case(format!("{pre}lst <- [1, 2]\nmp <- MAP()\nDISPLAY(\"call\")\nr <- {name}({})\nDISPLAY(r)\n", args.join(", ")), &format!("{module}.{name}")));
+            }
+        }
+    }
     // STYLE with every name of the live style table (scanned from style.rs), in three casings, and near-misses
     for name in style_names() {
         for n in [name.clone(), name.to_uppercase(), format!("{name} "), format!("{}x", name)] {
@@ -257,7 +283,7 @@ pub fn c14(ctx: &Ctx) -> PropResult {
         cases.push(run_case(format!("{pre}s <- {l}\nDISPLAY(TO_LOWER(s))\nDISPLAY(TO_UPPER(s))\nDISPLAY(TO_LOWER(s + s))\nDISPLAY(TO_LOWER(s + \" \" + s))\nDISPLAY(TO_UPPER(TO_LOWER(s)))\n"), "final-sigma"));
     }
     // number / boolean text
-    for t in ["1", "1.5", "-2", "+3", ".5", "5.", "1e3", "1E-2", "inf", "-Infinity", "NaN", "nan", " 1", "1 ", "", "0x10", "1_0", "true", "false", "TRUE", "True", " true", "1e400", "-1e-400", "0.1", "9007199254740993", "１", "-0", "-00", "-0.0", "+0", "-0e0", "00", "007", "-", "+", ".", "-.5", "1e", "e1", "1_000", "١٢", "-000", "0.", "-0.", "+.0", "1e-400", "-1e-400", "18446744073709551616", "-9223372036854775808", "-9223372036854775809", "1e19", "0e999", "-0e999"] {
+    for t in ["1", "1.5", "-2", "+3", ".5", "5.", "1e3", "1E-2", "inf", "-Infinity", "NaN", "nan", " 1", "1 ", "", "0x10", "1_0", "true", "false", "TRUE", "True", " true", "1e400", "-1e-400", "0.1", "9007199254740993", "１", "-0", "-00", "-0.0", "+0", "-0e0", "00", "007", "-", "+", ".", "-.5", "1e", "e1", "1_000", "١٢", "-000", "0.", "-0.", "+.0", "1e-400", "-1e-400", "18446744073709551616", "-9223372036854775808", "-9223372036854775809", "1e19", "0e999", "-0e999", "yes", "no", "T", "F", "tRuE", "FALSE", "False", "false ", "\ttrue", "true\n", "ＴＲＵＥ", "1", "0", "truee", "tru", "TRUE TRUE"] {
         cases.push(run_case(format!("{pre}DISPLAY(TO_NUMBER({}))\nDISPLAY(TO_BOOL({}))\n", strlit(t), strlit(t)), "parse-text"));
     }
     // TRIM is the Unicode operation: every White_Space character (and near misses) at either end, in ASCII-only and
@@ -357,6 +383,19 @@ pub fn c15(ctx: &Ctx) -> PropResult {
                     cases.push(run_case(format!("{pre}DISPLAY({name}({}))\n", args.join(", ")), tag));
                 }
             }
+        }
+    }
+    // every pair (triple) of special values for the procedures with several arguments: signed zeros, infinities, NaN
+    let sp = ["0", "-0", "1", "-1", "0.5", "INF", "-INF", "NAN", "2"];
+    for (module, name, arity) in &reg {
+        if module != "MATH" || *arity < 2 {
+            continue;
+        }
+        let total = sp.len().pow(*arity as u32);
+        for k in 0..total {
+            let mut kk = k;
+            let args: Vec<&str> = (0..*arity).map(|_| { let a = sp[kk % sp.len()]; kk /= sp.len(); a }).collect();
+            cases.push(run_case(format!("{pre}DISPLAY({name}({}))\n", args.join(", ")), &format!("MATH.{name}")));
         }
     }
     // decimal literals: literal bits (through DISPLAY) and text round trips
